@@ -10,14 +10,14 @@ BOUNDS = {
              '(strncmp/strncat: full size_t range; strncpy: 0..A+2; mem*: 0..block length; memchr: full range when the character occurs), int arguments '
              '(strchr/strrchr/memset/memchr) full 32 bit; memmove: one block, destination offset/source offset/count symbolic (every overlap); '
              'both the clang configuration of the public entry (G=0) and the gcc configuration (portable etl::detail templates, G=1)',
-    'thorough': 'W=0: A in 0..6, B in 0..4; W=1: A in 0..5, B in 0..3; otherwise as quick',
+    'thorough': 'W=0: A in 0..8, B in 0..5; W=1: A in 0..6, B in 0..4; otherwise as quick',
 }
 ASSUMPTIONS = [
     'C18: oracle = reference loops of harness/cstring/ref.h written from C11 7.24/7.29.4 (narrow characters ordered as unsigned char, wide characters as '
     'the signed 32-bit wchar_t of this target, which is what glibc does); ref.h is validated natively against glibc by validate_ref.cpp on every run (spec.validate())',
     'C18: G=0 is the public entry as clang builds it: etl::strlen/strcmp/strncmp/strchr/memchr/memcmp/memcpy/memmove/wmemcpy/wmemmove forward to __builtin_*; '
     'the builtins are modelled by the reference loops of engine/ll_rt_libc.h, so for those ten functions G=0 only shows that the arguments are forwarded unchanged; '
-    'G=1 runs the expression of the #else branch of the same header (what a gcc build executes)',
+    'G=1 is the gcc configuration: the kernel TU undefines __clang__ before including tetl, so clang compiles the real #else branches (portable etl::detail templates) of the real headers',
     'C18: str* arguments are terminated strings with the terminator in the last slot of their block (characters before it non-zero); *_u entries and mem* use '
     'unterminated blocks with count <= block length; source and destination never overlap except for memmove; the destination of strcat/strncat is a block of '
     'exactly len(dest)+len(src)+1 characters, of strcpy exactly len+1',
@@ -49,7 +49,7 @@ def queries(tier, prop='C18'):
     if tier == 'quick':
         lim = {0: (4, 3), 1: (3, 2)}
     else:
-        lim = {0: (6, 4), 1: (5, 3)}
+        lim = {0: (8, 5), 1: (6, 4)}
     opn = open_findings()
     out = []
     for w in (0, 1):
